@@ -53,13 +53,17 @@ def bes_part(bd, wd, seed, quick):
     ts = os.path.join(wd, "bes_stress.ndjson")
     vp.run_subject([os.path.join(bd, "bes_replay"), "--mode", "stress", "--rounds", "200" if quick else "3000",
             "--seed", str(seed), "--out", ts], timeout=1200)
+    tm = os.path.join(wd, "bes_mapstress.ndjson")
+    vp.run_subject([os.path.join(bd, "bes_replay"), "--mode", "mapstress", "--keys", "400" if quick else "4000",
+            "--seed", str(seed), "--out", tm], timeout=1200)
     info = {"code_variant": variant, "model_holds": mc["ok"], "model_states": mc["distinct"],
             "schedules_total": len(scheds), "schedules_model_says_lost": len(lost),
             "schedules_replayed": len(chosen)}
     viols = []
     states = mc["distinct"] + g["distinct"]
     trans = mc["generated"] + g["generated"]
-    for path, origin in ((tr, "BackwardEdgeSet schedule replay"), (ts, "BackwardEdgeSet stress")):
+    for path, origin in ((tr, "BackwardEdgeSet schedule replay"), (ts, "BackwardEdgeSet stress"),
+                         (tm, "callee -> callers map: concurrent first insert of a fresh key")):
         out = path + ".result.json"
         if os.path.exists(out):
             os.remove(out)
